@@ -377,6 +377,15 @@ def index_cases(shape):
     (`_get_indices` path)."""
     nd = len(shape)
     res = []
+    # index tuples LONGER than the number of dimensions (716435a) and their valid neighbours; all entries in range
+    T0 = {"t": [0, 0], "dt": "int64"}
+    res += [("count/toomany-ints", [0] * (nd + 1)), ("count/toomany-slices", [":"] * (nd + 1)), ("count/toomany-tensors", [T0] * (nd + 1)),
+            ("count/toomany-slices-int", [":"] * nd + [0]), ("count/toomany-int-slices", [0] + [":"] * nd), ("count/toomany-two-extra", [0] * (nd + 2)),
+            ("count/toomany-mixed", [0, ":"] * ((nd + 2) // 2) if len([0, ":"] * ((nd + 2) // 2)) > nd else [0, ":"] * ((nd + 2) // 2) + [0]),
+            ("count/toomany-ellipsis-front", ["..."] + [0] * (nd + 1)), ("count/toomany-ellipsis-mid", [0, "..."] + [":"] * nd),
+            ("count/toomany-ellipsis-back", [":"] * (nd + 1) + ["..."]), ("count/toomany-tensor-last", [":"] * nd + [T0]),
+            ("count/ok-ints", [0] * nd), ("count/ok-ellipsis-full", ["..."] + [0] * nd), ("count/ok-ellipsis-empty-mid", [0] * (nd - 1) + ["...", 0]),
+            ("count/ok-ellipsis-only", ["..."]), ("count/ok-ellipsis-int", ["...", 0])]
     for pos in range(nd):
         size = shape[pos]
         pname = ["row", "col"][pos - (nd - 2)] if pos >= nd - 2 else f"batch{pos}"
@@ -421,6 +430,8 @@ def mk_index(idx):
     def one(i):
         if i == ":":
             return slice(None)
+        if i == "...":
+            return Ellipsis
         if isinstance(i, dict):
             return torch.tensor(i["t"], dtype=getattr(torch, i["dt"]))
         if isinstance(i, list):
@@ -782,6 +793,10 @@ def gen_cases(chk, tier, collect=None):
                         pos = next(i for i, x in enumerate(idx) if x != ":")
                         sl = f"indexvalid {shape[pos]} {idx[pos]}"
                         ml, mode = f"range {shape[pos]} {idx[pos]}", "okerr"
+                    elif opname == "getitem" and kind.startswith("count/"):
+                        ks = ",".join("e" if x == "..." else ("s" if x == ":" else ("t" if isinstance(x, dict) else "i")) for x in idx)
+                        sl = f"idxcountspec {len(shape)} {ks}"
+                        ml, mode = f"idxcount {len(shape)} {ks}", "okerr"
                     elif opname == "getitem" and kind.startswith("tensor"):
                         pname = kind.split("/")[1]
                         pos = len(shape) - 2 + ["row", "col"].index(pname) if pname in ("row", "col") else int(pname[5:])
